@@ -27,6 +27,8 @@ UNITS = {
                       default_tags={'fancy_layout_interpreting': ['C14'], 'fancy_keys': ['C14'], 'keys': ['C14']}),
     'glue': dict(modules=['key_codes', 'events', 'keys', 'key_transforms', 'fancy_keys', 'physical_keyboard_layouts', 'char_production_map', 'fancy_layout_interpreting'],
                  spec=['trace.rs', 'glue.rs'], verify_only=['glue'], default_tags={'glue': ['C14']}),
+    'frontend': dict(modules=['key_codes', 'events', 'keys', 'fancy_keys', 'layout_parsing_formatting'], spec=[], verify_only=['layout_parsing_formatting'],
+                     default_tags={'layout_parsing_formatting': ['C14']}),
     'udev': dict(modules=['udev_utils'], spec=['sd.rs'], main_file='sd_driver.rs', compile=True, default_tags={'sd': ['C17']}),
     'loop': dict(modules=['key_codes', 'events', 'keys', 'key_transforms', 'tablet_mode_switch_reader', 'remapping_loop'], spec=[],
                  verify_only=['remapping_loop'], default_tags={'remapping_loop': ['C10', 'C12', 'C20', 'C11']}),
